@@ -50,7 +50,7 @@ def wrap(ctx, body):
         return ('import dataclasses\ntry:\n    @dataclasses.dataclass\n    class K:\n        if xflag:\n%s\n    emit(("fields", [f.name for f in dataclasses.fields(K)]))%s'
                 % (b3, GUARD)), ('class-if', 'K')
     if ctx == 'dataclass_second':
-        return ('import dataclasses, functools\ntry:\n    @functools.total_ordering\n    @dataclasses.dataclass(eq=False)\n    class K:\n%s\n        def __eq__(self, o): return True\n        def __lt__(self, o): return False\n'
+        return ('import dataclasses\ndef passthrough(c): return c\ntry:\n    @passthrough\n    @dataclasses.dataclass\n    class K:\n%s\n'
                 '    emit(("fields", [f.name for f in dataclasses.fields(K)]))%s' % (b2, GUARD)), ('class', 'K')
     if ctx == 'dataclass_call':
         return 'import dataclasses\ntry:\n    @dataclasses.dataclass(frozen=True)\n    class K:\n%s\n    emit(("fields", [f.name for f in dataclasses.fields(K)]))%s' % (b2, GUARD), ('class', 'K')
